@@ -84,7 +84,7 @@ CHECKS["C04"] = {
             "compact: n x (m1+m2+1) and the operators preserve it with the trait's operator; fill_band's guard entails its column; the matvec window provably never reads "
             "padding and indexes x by the true column; the pivot search compares magnitudes and is an arg-max; the row exchange, the sign flip and the recorded index are "
             "paired; det multiplies the sign by the full pivot column; solve replays the recorded exchanges and multipliers with the same offsets."
-            " Every division in decompose is dominated by a test that the pivot differs from zero (a singular band has determinant 0, not NaN). resize updates the layout on every path (no early return skips it); det runs the factorisation unconditionally (no shortcut for some bandwidths); a whole-row swap_rows of the compact copy is accepted as the exchange.",
+            " Every division in decompose is dominated by a test that the pivot differs from zero (a singular band has determinant 0, not NaN). resize updates the layout on every path (no early return skips it); det runs the factorisation unconditionally (no shortcut for some bandwidths); a whole-row swap_rows of the compact copy is accepted as the exchange. Every panic of decompose / solve / det is guarded by shape comparisons (or an exactly-zero pivot) only, never by a computed functional such as a determinant or a threshold on magnitudes.",
     "design_ref": "DESIGN.md §3 C04",
     "note": "The initial left-shift/zero-fill is decided by resolving l as the induction variable m1 - i; the elimination window bound (l capped at n) is outside the linear prover; agreement with the dense result and backward error are numerical.",
     "technique": TECH + "single-fact linear entailment on index windows, magnitude/arg-max analysis, exchange/sign/index pairing, store/replay offset agreement",
@@ -92,7 +92,7 @@ CHECKS["C04"] = {
 CHECKS["C05"] = {
     "text": "For every n >= 1: Index/IndexMut implement one storage map; every assignment of convert and every product of the matrix-vector stencil agrees with that map; "
             "with the struct invariant (checked on the constructors) every index in det, convert and the product is proved in range — this is what exposes the n = 1 case; "
-            "in solve every definition of the pivot is followed by a zero test that panics before any division by it; transpose swaps sub/sup; the determinant is the three-term recurrence; operators pair like diagonals.",
+            "in solve every definition of the pivot is followed by a zero test that panics before any division by it; transpose swaps sub/sup; the determinant is the three-term recurrence; operators pair like diagonals. Every panic of solve / det is guarded by shape comparisons or an exactly-zero pivot only.",
     "design_ref": "DESIGN.md §3 C05",
     "note": "Domain n >= 1 as the property states. Exactness of solve and backward stability are numerical and not decided statically.",
     "technique": TECH + "storage-map agreement, armed single-fact bounds proofs under a struct invariant, def-guard-use divisor discipline, symbolic transpose/recurrence identities",
